@@ -3,6 +3,7 @@ package variablesvalidation
 import (
 	"bytes"
 	"fmt"
+	"math"
 
 	"github.com/wundergraph/astjson"
 
@@ -431,6 +432,13 @@ func (v *variablesVisitor) violatesOneOfConstraint(inputObjectDefRef int, jsonVa
 	return true
 }
 
+// isInt32 reports whether a JSON number is an Int input value:
+// an integer (no fraction, no exponent) in the signed 32-bit range
+func isInt32(jsonValue *astjson.Value) bool {
+	n, err := jsonValue.Int64()
+	return err == nil && n >= math.MinInt32 && n <= math.MaxInt32
+}
+
 func (v *variablesVisitor) traverseNamedTypeNode(jsonValue *astjson.Value, typeName []byte) {
 	if v.err != nil {
 		return
@@ -485,7 +493,7 @@ func (v *variablesVisitor) traverseNamedTypeNode(jsonValue *astjson.Value, typeN
 				return
 			}
 		case "Int":
-			if jsonValue.Type() != astjson.TypeNumber {
+			if jsonValue.Type() != astjson.TypeNumber || !isInt32(jsonValue) {
 				v.renderVariableInvalidNestedTypeError(jsonValue, fieldTypeDefinitionNode.Kind, typeName, false)
 				return
 			}
